@@ -57,11 +57,11 @@ func (g *aspGen) newListVar(ind int, minLen int) *avar {
 			parts[i] = strconv.Itoa(g.n(-3, 9, "pelem"))
 		}
 		e = atom("[" + strings.Join(parts, ", ") + "]")
-		e.constLit = true
+		e.constLit, e.cpart = true, true
 		if g.reeval() && g.o.ExclFoldedConst {
 			g.excluded("folded-constant")
 			e.s += " + []"
-			e.constLit = false
+			e.constLit, e.cpart = false, false
 		}
 		g.emit(ind, name+" = "+e.s)
 	case 1:
